@@ -30,7 +30,8 @@ class Obj:
         self.typename = typename
 
 
-STRINGS = ["", "abc", 'q"uote', "zażółć 日本", "it's", "line1\nline2", "back\\slash", "😀"]
+STRINGS = ["", "abc", 'q"uote', "zażółć 日本", "it's", "line1\nline2", "back\\slash", "😀",
+           " padded ", "trailing tab\t", "\nleading newline", "   "]  # values are data: surrounding whitespace included
 
 
 class RefServer:
@@ -56,7 +57,7 @@ class RefServer:
         if n == "String":
             return r.choice(STRINGS)
         if n == "ID":
-            return r.choice(["1", "abc", "id-9"])
+            return r.choice(["1", "abc", "id-9", " 42", "7 "])
         if n == "Boolean":
             return r.choice([True, False])
         if n in self.scalar_values:
